@@ -51,6 +51,28 @@ def dumpMembers : List (Bytes × JVal) → String
   | (k, v) :: r => hexB k ++ ":" ++ dump v ++ (if r.isEmpty then "" else ",") ++ dumpMembers r
 end
 
+/-- `name/k<hex>/i<n>/…`: a slot and a path of getter steps into it (a borrowed pointer) -/
+def parseStep? (t : String) : Option Step :=
+  if t.startsWith "k" then (parseHex? (t.drop 1).toString).map (fun b => Step.key (cstr b))
+  else if t.startsWith "i" then (parseSize? (t.drop 1).toString).map Step.idx
+  else none
+
+def rroot (r : String) : String := (r.splitOn "/").headD ""
+
+def rpath? (r : String) : Option (List Step) := ((r.splitOn "/").drop 1).mapM parseStep?
+
+def rget (s : St) (r : String) : Option JVal :=
+  match s.get? (rroot r), rpath? r with
+  | some root, some p => match getAt root p with
+    | .ok v => some v
+    | .error _ => none
+  | _, _ => none
+
+def rset (s : St) (r : String) (v' : JVal) : St :=
+  match s.get? (rroot r), rpath? r with
+  | some root, some p => s.set (rroot r) (setAt root p v')
+  | _, _ => s
+
 def errName : Err → String
   | .invalidArgument => "AWS_ERROR_INVALID_ARGUMENT"
   | .invalidIndex => "AWS_ERROR_INVALID_INDEX"
@@ -93,89 +115,89 @@ def step (s : St) (t : List String) : St × List String :=
   | ["hint_val", h, b] => match parseHex? h, parseBits? b with
     | some tk, some b => ({ s with vals := (tk, b) :: s.vals }, [])
     | _, _ => bad
-  | ["add", o, k, v] => match s.get? o, parseHex? k, s.get? v with
+  | ["add", o, k, v] => match rget s o, parseHex? k, s.get? v with
     | some ov, some kb, some vv =>
-      if o == v then bad else
+      if rroot o == v then bad else
       match addToObject ov (cstr kb) vv with
-      | .ok o' => ((s.del v).set o o', ["P add OK"])
+      | .ok o' => (rset (s.del v) o o', ["P add OK"])
       | .error e => (s, [s!"P add ERR {errName e}"])
     | _, _, _ => bad
-  | ["arr_add", a, v] => match s.get? a, s.get? v with
+  | ["arr_add", a, v] => match rget s a, s.get? v with
     | some av, some vv =>
-      if a == v then bad else
+      if rroot a == v then bad else
       match addArrayElement av vv with
-      | .ok a' => ((s.del v).set a a', ["P arr_add OK"])
+      | .ok a' => (rset (s.del v) a a', ["P arr_add OK"])
       | .error e => (s, [s!"P arr_add ERR {errName e}"])
     | _, _ => bad
-  | ["get", o, k] => match s.get? o, parseHex? k with
+  | ["get", o, k] => match rget s o, parseHex? k with
     | some ov, some kb => match getFromObject ov (cstr kb) with
       | .ok v => (s, [s!"P get {dump v}"])
       | .error e => (s, [s!"P get NULL {errName e}"])
     | _, _ => bad
-  | ["dupget", o, k, d] => match s.get? o, parseHex? k with
+  | ["dupget", o, k, d] => match rget s o, parseHex? k with
     | some ov, some kb =>
-      if o == d then bad else
+      if rroot o == d || d.contains '/' then bad else
       match getFromObject ov (cstr kb) with
       | .ok v => (s.set d (duplicate v), ["P dupget OK"])
       | .error e => (s, [s!"P dupget NULL {errName e}"])
     | _, _ => bad
-  | ["has", o, k] => match s.get? o, parseHex? k with
+  | ["has", o, k] => match rget s o, parseHex? k with
     | some ov, some kb => (s, [s!"P has {if hasKey ov (cstr kb) then 1 else 0}"])
     | _, _ => bad
-  | ["remove", o, k] => match s.get? o, parseHex? k with
+  | ["remove", o, k] => match rget s o, parseHex? k with
     | some ov, some kb => match removeFromObject ov (cstr kb) with
-      | .ok o' => (s.set o o', ["P remove OK"])
+      | .ok o' => (rset s o o', ["P remove OK"])
       | .error e => (s, [s!"P remove ERR {errName e}"])
     | _, _ => bad
-  | ["arr_get", a, i] => match s.get? a, parseSize? i with
+  | ["arr_get", a, i] => match rget s a, parseSize? i with
     | some av, some i => match getArrayElement av i with
       | .ok v => (s, [s!"P arr_get {dump v}"])
       | .error e => (s, [s!"P arr_get NULL {errName e}"])
     | _, _ => bad
-  | ["dupat", a, i, d] => match s.get? a, parseSize? i with
+  | ["dupat", a, i, d] => match rget s a, parseSize? i with
     | some av, some i =>
-      if a == d then bad else
+      if rroot a == d || d.contains '/' then bad else
       match getArrayElement av i with
       | .ok v => (s.set d (duplicate v), ["P dupat OK"])
       | .error e => (s, [s!"P dupat NULL {errName e}"])
     | _, _ => bad
-  | ["arr_remove", a, i] => match s.get? a, parseSize? i with
+  | ["arr_remove", a, i] => match rget s a, parseSize? i with
     | some av, some i => match removeArrayElement av i with
-      | .ok a' => (s.set a a', ["P arr_remove OK"])
+      | .ok a' => (rset s a a', ["P arr_remove OK"])
       | .error e => (s, [s!"P arr_remove ERR {errName e}"])
     | _, _ => bad
-  | ["arr_size", a] => match s.get? a with
+  | ["arr_size", a] => match rget s a with
     | some av => match arraySize av with
       | .ok n => (s, [s!"P arr_size {n} NONE"])
       | .error e => (s, [s!"P arr_size 0 {errName e}"])
     | _ => bad
-  | ["dup", a, d] => match s.get? a with
-    | some av => if a == d then bad else (s.set d (duplicate av), ["P dup OK"])
+  | ["dup", a, d] => match rget s a with
+    | some av => if rroot a == d || d.contains '/' then bad else (s.set d (duplicate av), ["P dup OK"])
     | none => bad
-  | ["cmp", a, b, cs] => match s.get? a, s.get? b with
+  | ["cmp", a, b, cs] => match rget s a, rget s b with
     | some av, some bv =>
       if cs != "0" && cs != "1" then bad else
       (s, [s!"P cmp {if compare s.env (cs == "1") av bv then 1 else 0}"])
     | _, _ => bad
-  | ["print", a, f] => match s.get? a, parseFmt? f with
+  | ["print", a, f] => match rget s a, parseFmt? f with
     | some av, some fmt => (s, [s!"W text {hexB (printText s.env fmt av)}"])
     | _, _ => bad
-  | ["reparse", a, f, d] => match s.get? a, parseFmt? f with
+  | ["reparse", a, f, d] => match rget s a, parseFmt? f with
     | some av, some fmt =>
-      if a == d then bad else
+      if rroot a == d || d.contains '/' then bad else
       match parseText s.env (printText s.env fmt av) with
       | some v => (s.set d v, ["P reparse OK"])
       | none => (s.del d, ["P reparse NULL"])
     | _, _ => bad
-  | ["parse", d, h] => match parseHex? h with
+  | ["parse", d, h] => match (if d.contains '/' then none else parseHex? h) with
     | some bs => match parseText s.env bs with
       | some v => (s.set d v, ["P parse OK"])
       | none => (s.del d, ["P parse NULL"])
     | none => bad
-  | ["dump", a] => match s.get? a with
+  | ["dump", a] => match rget s a with
     | some av => (s, [s!"P dump {dump av}"])
     | none => bad
-  | ["type", a] => match s.get? a with
+  | ["type", a] => match rget s a with
     | some av => (s, [typeLine av])
     | none => bad
   | ["destroy", a] => match s.get? a with
